@@ -280,6 +280,7 @@ def grid_families(tier):
             for k in ks:
                 for a in ("greedy", "roundrobin", "multifit", "kk"):
                     f1.append({"algo": a, "items": items, "k": k, "fmt": fmt})
+                f1.append({"algo": "cg", "items": items, "k": k, "fmt": fmt, "kw": {"objective": "MinimizeDifference", "time_limit": 1e-9}})
                 for o in scopes.CG_OBJECTIVES:
                     for sw in ({}, {"use_set_of_seen_states": False, "use_lower_bound": False}):
                         for out in ("PartitionAndSumsTuple", "Sums"):
@@ -291,7 +292,10 @@ def grid_families(tier):
                     for o in scopes.CG_OBJECTIVES:
                         fdp.append({"algo": "dp", "items": items, "k": k, "fmt": fmt, "kw": {"objective": o}})
             for d in (None, 1, 2):
-                fcb.append({"algo": "cbldm", "items": items, "k": 2, "fmt": fmt, "kw": {} if d is None else {"partition_difference": d}})
+                kwd = {} if d is None else {"partition_difference": d}
+                # a call cut off at once (the limit has passed at the first test: deterministic), then the same call without limit
+                fcb.append({"algo": "cbldm", "items": items, "k": 2, "fmt": fmt, "kw": dict(kwd, time_limit=1e-9)})
+                fcb.append({"algo": "cbldm", "items": items, "k": 2, "fmt": fmt, "kw": kwd})
     fam["balance+cg"] = f1; fam["kk-ckk-snp-rnp"] = f2; fam["dp"] = fdp; fam["cbldm"] = fcb
     filp = []
     for ms in spaces.multisets((1, 2, 3), 3, 3):
